@@ -22,8 +22,16 @@ RULE = ("cases = 7 fixed witnesses of finding candidates (tags finding-*) + gene
         "padding amount are dyadic => pad/unpad exact; 1 free mode, tag suffix -free; in the -aniso classes tall-thin 6-16 x "
         "60-110, wide-flat, or 8x90 / 90x8 leaves among 40x40 inner nodes), 4 initial-position modes (random, fine grid, "
         "jittered lattice, heavily overlapping), options: useACAforLinks, do_near_align, align_reps 1-3, kinkWidth .25/.5, "
-        "scope 1/2, preferredAspectRatio NONE/PORTRAIT/LANDSCAPE, defaultTreeGrowthDir EAST/SOUTH/WEST/NORTH. Fixed case "
-        "counts: 7+160 quick, 7+400 thorough. A case is non-trivial if doHOLA moved a node and returned at least one route.")
+        "scope 1/2, preferredAspectRatio NONE/PORTRAIT/LANDSCAPE, defaultTreeGrowthDir EAST/SOUTH/WEST/NORTH. After these: the "
+        "crowd family (tags crowd-wheel, crowd-fan; own random streams): one hub of degree 8-16 joined to a rim cycle / rim path "
+        "(+0-4 hanging tree nodes in a third of the cases) on SMALL nodes, so that more connectors reach one side of the hub than "
+        "fit at the nudging distance 4: 5 size modes (all s x s with s in 6..12; random 6..16; tiny hub among 16..40; narrow hub "
+        "6..10 x 30..60; large hub among 6..12), declaration of the hub's edges systematically in 4 modes (all INTO the hub = "
+        "addEdge(rim, hub); all OUT of it; random; alternating), spread-out starts (fine grid / circle), same option draws. "
+        "Further crowd topologies (partial wheel, double wheel, K(h,m), hub in a grid, two wheels) and compact starts exist in "
+        "the harness (`--mode crowd-open`) but are NOT in the plan: the unchanged library aborts / throws there (see "
+        "tools/briefs/reports/fC14.md). Fixed case counts: 7+160+24 quick, 7+400+64 thorough. A case is non-trivial if doHOLA "
+        "moved a node and returned at least one route.")
 TRUSTED_BASE = ["Lean 4.33 kernel", "axioms: propext, Classical.choice, Quot.sound",
                 "compiled driver agrees with the kernel semantics of the checker definitions",
                 "harness/c14.cpp (generator, dump of Node::getCentre/getDimensions, Edge::getEndIds/getRoute, SepPair fields "
